@@ -17,6 +17,7 @@ import (
 	"strings"
 	"sync"
 	"sync/atomic"
+	"syscall"
 	"time"
 
 	mcp "trpc.group/trpc-go/trpc-mcp-go"
@@ -38,6 +39,7 @@ type scriptedNet struct {
 	bodyVar  int
 	closedLn net.Listener
 	closed   string
+	refuseFd int
 }
 
 func newScriptedNet(legacy bool) *scriptedNet {
@@ -45,10 +47,22 @@ func newScriptedNet(legacy bool) *scriptedNet {
 	ln, _ := net.Listen("tcp", "127.0.0.1:0")
 	s.ln = ln
 	s.addr = ln.Addr().String()
-	// an address that refuses connections
-	l2, _ := net.Listen("tcp", "127.0.0.1:0")
-	s.closed = l2.Addr().String()
-	l2.Close()
+	// an address that refuses connections: a socket that is bound but never listens keeps its port reserved (a port
+	// taken from a listener that was closed again can be handed to another process's listener in the meantime)
+	s.closed = "127.0.0.1:1"
+	if fd, err := syscall.Socket(syscall.AF_INET, syscall.SOCK_STREAM, 0); err == nil {
+		if err := syscall.Bind(fd, &syscall.SockaddrInet4{Port: 0, Addr: [4]byte{127, 0, 0, 1}}); err == nil {
+			if sa, err := syscall.Getsockname(fd); err == nil {
+				if in4, ok := sa.(*syscall.SockaddrInet4); ok {
+					s.closed = fmt.Sprintf("127.0.0.1:%d", in4.Port)
+					s.refuseFd = fd
+				}
+			}
+		}
+		if s.refuseFd == 0 {
+			syscall.Close(fd)
+		}
+	}
 	srv := &http.Server{Handler: http.HandlerFunc(s.serve)}
 	go srv.Serve(ln)
 	return s
@@ -251,6 +265,11 @@ func runE2E(s e2eScript) (res e2eResult) {
 	legacy := s.Client == "legacy"
 	sn := newScriptedNet(legacy)
 	defer sn.ln.Close()
+	defer func() {
+		if sn.refuseFd != 0 {
+			syscall.Close(sn.refuseFd)
+		}
+	}()
 	sn.bodyVar = s.BodyVar
 	for i, o := range s.Outcomes {
 		res.Wire = append(res.Wire, outcomeWire(o, s.Variant+i))
